@@ -514,9 +514,16 @@ def gen_C16(rng, count, tier):
         n += 1
         toks = []
         for _ in range(20):
-            k = rng.randrange(5)
+            k = rng.randrange(6)
             f, t, s, s2 = (pick(rng, big + vals) * pick(rng, [1, 1, -1]) for _ in range(4))
-            if k == 0:
+            if k == 5:
+                # the object held another range, and was asked about it, before it was assigned this one
+                f0, t0, s0 = pick(rng, [(0, 99, 100), (100, 10, 50), (0, -1, -1), (5, 5, 3), (-3, -1, 10), (0, 0, 0)])
+                if rng.random() < 0.6:
+                    toks.append("q:%d:%d:%d:%d:%d:%d" % (f0, t0, s0, f, t, s))
+                else:
+                    toks.append("qs:%d:%d:%d:%s:%d" % (f0, t0, s0, hx(pick(rng, [b"0-99", b"5-", b"-5", b"9-2", b"x", b""])), pick(rng, [-1, 0, 10, 100])))
+            elif k == 0:
                 toks.append("n:%d:%d:%d" % (f, t, s))
             elif k == 1:
                 toks.append("a:%d:%d:%d" % (f, t, s))
@@ -602,6 +609,10 @@ def gen_route(rng, count, accept_p):
             # earlier requests (for the same path, mostly) on other connections while the tree is still being
             # built: what is attached afterwards must be in force for the observed request
             first = min(j for j, x in enumerate(toks) if x.startswith("node:"))
+            if rng.random() < 0.4:
+                # a middleware that admitted those earlier requests refuses the observed one (another client, other
+                # credentials): verdict 2
+                toks = [("%s:2" % x[:-2]) if x.startswith("mw:") and x.endswith(":0") and rng.random() < 0.7 else x for x in toks]
             for _ in range(rng.choice([1, 1, 2])):
                 wt = t if rng.random() < 0.7 else "/" + "/".join(pick(rng, RSEGS) for _ in range(rng.randrange(0, 3)))
                 pos = rng.randrange(first + 1, len(toks) + 1)
@@ -655,6 +666,22 @@ def gen_C09(rng, count, tier):
         if k == 16: payload = u + b":" + p + b"x" * pick(rng, [255, 256, 257, 512, 65536])   # same prefix, longer
         elif k == 17 and len(p) > 256: payload = u + b":" + p[:len(p) - pick(rng, [256, 255, 512 if len(p) > 512 else 256])]
         elif k == 18 and p: payload = u + b":" + p[:-1] + bytes([p[-1] ^ pick(rng, [1, 0x20, 0x80])])   # one bit off
+        if k == 19 or (k == 0 and rng.random() < 0.5):
+            # the same text with one or every character moved by a multiple of 0x100 code units (well-formed UTF-8)
+            def shift(b, allc):
+                try:
+                    t = b.decode("utf-8")
+                except UnicodeDecodeError:
+                    return b
+                if not t:
+                    return b
+                j = rng.randrange(len(t))
+                d = pick(rng, [0x100, 0x200, 0x2000])
+                return "".join(chr(ord(c) + d) if (allc or q == j) and ord(c) + d < 0xD800 else c for q, c in enumerate(t)).encode("utf-8")
+            if rng.random() < 0.7:
+                payload = u + b":" + shift(p, rng.random() < 0.3)
+            else:
+                payload = shift(u, False) + b":" + p
         if k == 1: payload = u + b":" + p[:-1]                         # prefix password
         elif k == 2: payload = u + b":" + p.swapcase()
         elif k == 3: payload = u + b":"                                # empty password
@@ -698,6 +725,14 @@ def gen_C09(rng, count, tier):
             u2, p2 = pick(rng, table)
             newp = pick(rng, [b"changed", p2 + b"x", b""])
             toks += [req(u2, p2), "cred:%s:%s" % (hx(u2), hx(newp)), req(u2, p2), req(u2, newp), req(u2, p2)]
+        elif rng.random() < 0.25 and table:
+            # history: a request that is admitted, then the same header in another letter case (the token too)
+            u2, p2 = pick(rng, table)
+            tok2 = base64.b64encode(u2 + b":" + p2)
+            var = pick(rng, [tok2.lower(), tok2.upper(), tok2.swapcase()])
+            toks += ["head:" + hx(b"GET / HTTP/1.1\r\nAuthorization: Basic " + tok2),
+                     "head:" + hx(b"GET / HTTP/1.1\r\nAuthorization: " + pick(rng, [b"Basic ", b"basic ", b"BASIC "]) + var),
+                     "head:" + hx(b"GET / HTTP/1.1\r\nAuthorization: Basic " + tok2)]
         yield ("auth", " ".join(toks))
 
 
@@ -855,6 +890,7 @@ import os as _os
 FSBASE = _os.path.join(_os.path.dirname(_os.path.dirname(_os.path.abspath(__file__))), ".work", "fstree")
 FSROOT = FSBASE + "/parent/root"
 PSEGS = ["in.txt", "sub", "deep.txt", ".", "..", "", "%2e", "%2E%2e", "%252e", "%252e%252e", "%2f", "%252f", "..%2f", "%2e%2e%2f", "rootx", "secret.txt",
+         ":", "%3A", "%3a%2f", "%253A%252F", "qt-project.org",
          "s.txt", "root", "parent", "nonexistent", "a&b<c>.txt", "a%26b%3Cc%3E.txt", ".hidden", "big.bin", "empty.txt", "..%00", "%00", "....", ". ."]
 
 
@@ -870,6 +906,16 @@ def root_spelling(rng):
 def gen_C07(rng, count, tier):
     import itertools
     n = 0
+    # the handler object served another document root before: what it found there is not served from the new one
+    for pre, p1 in ((FSBASE + "/parent", "/secret.txt"), (FSBASE + "/parent", "/rootx/s.txt"), (FSBASE + "/parent", "/rootx"),
+                    (FSBASE + "/parent/rootx", "/s.txt"), (FSROOT + "/sub", "/deep.txt"), (FSBASE + "/parent", "/root/in.txt")):
+        n += 1
+        yield ("fs", "root:%s preroot:%s warm:%s setroot %s" % (hx(FSROOT.encode()), hx(pre.encode()), hx(p1.encode()),
+                                                                fs_events(("GET %s HTTP/1.1\r\n\r\n" % p1).encode())))
+    # names that are absolute for Qt without starting with a slash (the resource system)
+    for t in ("/:/", "/:/qt-project.org", "/%3A/", "/%3a%2fqt-project.org", "/:", "/sub/:/", "/%253A%252F"):
+        n += 1
+        yield ("fs", "root:%s %s" % (hx(FSROOT.encode()), fs_events(("GET %s HTTP/1.1\r\n\r\n" % t).encode())))
     # exhaustive: all paths of up to 3 segments over a reduced alphabet (quick) / 4 (thorough)
     alpha = ["in.txt", "sub", "..", ".", "", "%2e%2e", "%252e%252e", "rootx", "secret.txt", "%2f", "nonexistent"]
     L = 2 if tier == "quick" else 3
@@ -985,6 +1031,18 @@ def gen_C15(rng, count, tier):
         evs = ["new"] + ["feed:" + hx(s) for s in segs]
         if rng.random() < 0.3:
             evs.insert(rng.randrange(1, len(evs) + 1), "turn")
+        if rng.random() < 0.12 and len(evs) > 2:
+            # the name is registered again while the request may be waiting for the rest of its body
+            # (only once the head has been delivered and routed: before that it would be an ordinary registration)
+            got, hpos = 0, None
+            for j, x in enumerate(evs):
+                if x.startswith("feed:"):
+                    got += len(x[5:]) // 2
+                    if got >= h + 4:
+                        hpos = j
+                        break
+            if hpos is not None:
+                evs.insert(rng.randrange(hpos + 1, len(evs) + 1), "rereg:" + hx16(name))
         if rng.random() < 0.15:
             evs.append("peerclose")
         evs.append("turn")
